@@ -85,7 +85,8 @@ OthersIntact == \A r \in Roles \ PathBound(tc) : Received(tc)[r] = Meant(tc)[r]
 -----------------------------------------------------------------------------
 (* C04: content negotiation.  An Accept header is a sequence of ranges     *)
 (* [type, q] with q in tenths (0..10); Offers are the registered types.    *)
-Offers == {"application/json", "application/protobuf", "application/octet-stream"}
+\* (application/x-verif is a codec the harness registers with CodecOption: user codecs are offered like built-in ones)
+Offers == {"application/json", "application/protobuf", "application/octet-stream", "application/x-verif"}
 RangeAdmits(rg, t) ==
   /\ rg.q > 0
   /\ \/ rg.type = "*/*"
